@@ -24,14 +24,21 @@ from harness.common.num import q, unq
 PID = "C19"
 LEVEL = "proof"
 REQUIRED_THEOREMS = [
-    "basis_orthonormal", "basis_right_handed", "basis_is_normalised_jacobian", "metric_eq_jacobian_gram",
-    "bipolar_basis_orthonormal", "bisph_basis_orthonormal", "order_consistent",
+    "basis_orthonormal", "basis_right_handed", "basisOp_handedness", "basis_is_normalised_jacobian",
+    "metric_eq_jacobian_gram", "bipolar_basis_orthonormal", "bisph_basis_orthonormal", "order_consistent",
+    "operators_use_component_order_cyl", "vectorToCartesianChecked_spec",
     "unit_field_maps_to_basis_vector", "cyl_axial_unit_field_maps_to_azimuthal",
     "order_consistent_cyl_partial", "order_consistent_op", "radial_field_maps_to_position",
     "products_invariant3", "products_invariant_polar", "products_invariant_spherical",
     "products_invariant_cylindrical", "products_contract_adjacent_indices",
-    "conversion_commutes_with_divergence_poly_polar", "conversion_commutes_with_divergence_poly_spherical",
-    "cyl_op_conversion_commutes_with_divergence", "conversion_commutes_with_gradient_poly",
+    # conversion commutes with divergence / gradient: arbitrary differentiable fields (K = R) ...
+    "polar_conversion_commutes_with_divergence_real", "polar_conversion_commutes_with_gradient_real",
+    "spherical_conversion_commutes_with_divergence_real", "spherical_conversion_commutes_with_gradient_real",
+    "cyl_op_conversion_commutes_with_divergence_real", "cyl_op_conversion_commutes_with_gradient_real",
+    "cyl_conversion_divergence_real",
+    # ... and the algebraic form for the sub-class r P(r^2) (named _partial)
+    "conversion_commutes_with_divergence_poly_polar_partial", "conversion_commutes_with_divergence_poly_spherical_partial",
+    "cyl_op_conversion_commutes_with_divergence_partial", "conversion_commutes_with_gradient_poly_partial",
     "from_expression_getitem",
 ]
 RULE = ("legs: coordsys (5 curvilinear coordinate systems + Cartesian 1-3d at random points, batches and "
@@ -43,7 +50,9 @@ RULE = ("legs: coordsys (5 curvilinear coordinate systems + Cartesian 1-3d at ra
         "(VectorField.interpolate_to_grid to random Cartesian boxes inside polar/spherical/cylindrical grids "
         "with and without hole: uniform unit fields of every axis, radial, position, rigid rotation, random "
         "affine and quadratic fields; built from expressions or from data; source semantics and JIT), commute "
-        "(conversion vs divergence / gradient on polynomial fields, operator order probes).  A case is "
+        "(conversion vs divergence / gradient on polynomial fields whose coefficients are redrawn until every wrong "
+        "reading of the component order changes the continuum result by > 3 x the tolerance; operator order probes "
+        "for divergence, gradient, vector gradient, vector Laplacian and tensor divergence).  A case is "
         "distinct by (leg, system or grid spec, inputs) and non-trivial if a permutation or sign change of "
         "components/rows would change the expected result (non-zero, pairwise different components; "
         "points off the axes); malformed cases never count as non-trivial")
@@ -56,8 +65,11 @@ ASSUMPTIONS = [
     "interpolation (C16) is not modelled here: the model converts the grid-basis values the real interpolator "
     "returned; the monitor compares with the analytic field within the proven bound of linear interpolation "
     "(dx^2/8 |f''|), exact for affine fields",
-    "conversion-vs-differentiation is checked within a discretisation tolerance (8 % of the field scale; "
-    "measured errors on this tree are below 3 %, a wrong component order changes the result by O(100 %))",
+    "conversion-vs-differentiation is checked within a discretisation tolerance COMMUTE_TOL * S + COMMUTE_ABS * "
+    "H2 * D3 (S, D3: sizes of the first and third derivatives of the Cartesian components of the field, all "
+    "components; H2 = max dx^2 + dr^2 + dz^2); measured on the unchanged tree over 12,000 generated cases: "
+    "largest deviation 0.28 of the tolerance; the generator redraws coefficients until every wrong reading "
+    "of the component order deviates by more than 3 x the tolerance",
     "Tensor2Field.interpolate_to_grid raises NotImplementedError in py-pde: tensor conversion exists only in "
     "the model (B^T T B); the harness checks that the error class stays as it is",
 ]
@@ -65,8 +77,16 @@ TRUSTED_EXTRA = ["the harness' own closed-form unit vectors (cross-checked again
                  "pos_to_cart on every run)"]
 
 TOL = 1e-12
+FD_STEP = 2e-3       # relative step of the finite-difference Jacobian of pos_to_cart (coordsys leg)
+FD_TOL = 1e-10       # its tolerance relative to the scale of the Jacobian (measured: see notes/C19.md)
 KNOWN_KEY = {"grid_class": "CylindricalSymGrid", "call_site": "GridBase._vector_to_cartesian",
              "symptom": "component-order (r,phi,z) vs (r,z,phi)"}
+# a separate defect (pde/fields/vectorial.py:168, `comp_name = self.grid.c.axes[axis]`): the label of a
+# component picked by name is looked up in the order of the coordinate system although the index came
+# from `get_axis_index` (component order) - `field['z'].label == 'φ component'` on cylindrical grids.
+# It has its own key and is never attributed to KNOWN_KEY (proposed fix: notes/proposed_fixes/)
+LABEL_KEY = {"grid_class": "CylindricalSymGrid", "call_site": "VectorField.__getitem__",
+             "symptom": "label of named component"}
 
 # the property's statement of the component order (operators, access by name)
 OP_ORDER = {"polar": ["r", "φ"], "spherical": ["r", "θ", "φ"], "cylindrical": ["r", "z", "φ"]}
@@ -234,6 +254,11 @@ def maxdiff(a, b):
     return float(d.max())
 
 
+def exceeds(x, tol):
+    """x > tol, where a non-finite x (NaN from a broken computation) counts as a difference"""
+    return not (x <= tol)
+
+
 def jl(a):
     return np.asarray(a, dtype=float).tolist()
 
@@ -394,17 +419,27 @@ def cs_real(sys, a, pts, comps=None):
         return [X[..., k] for k in range(m)]
     out = {"B": per_point(B, (d, d)), "J": per_point(J, (d, d)), "h": per_point(h, (d,)),
            "M": per_point(M, (d, d)), "vf": [float(np.ravel(vf)[k if not single else 0]) for k in range(m)]}
-    # numerical derivative of pos_to_cart
-    Jn = []
+    # numerical derivative of pos_to_cart: Richardson-extrapolated central differences (two 4th-order
+    # five-point stencils combined to 6th order); `Jn_err` is the difference of the two stencils, an
+    # estimate of the error of the less accurate one
+    Jn, Jerr = [], []
     for p in P:
-        cols = []
+        cols, errs = [], []
         for j in range(d):
-            eps = 1e-6 * max(1.0, abs(p[j]))
             e = np.zeros(d)
-            e[j] = eps
-            cols.append((c.pos_to_cart(p + e) - c.pos_to_cart(p - e)) / (2 * eps))
+            e[j] = 1.0
+            f = lambda t: np.asarray(c.pos_to_cart(p + t * e), dtype=float)
+            d4 = lambda h: (-f(2 * h) + 8 * f(h) - 8 * f(-h) + f(-2 * h)) / (12 * h)
+            h = FD_STEP * max(1.0, abs(p[j]))
+            if sys in ("bipolar", "bispherical"):        # stay well inside the distance to the focus
+                h = min(h, FD_STEP * 10 * abs(math.cos(p[0]) - math.cosh(p[1])))
+            a1, a2 = d4(h), d4(h / 2)
+            cols.append((16 * a2 - a1) / 15)
+            errs.append(np.abs(a2 - a1))
         Jn.append(np.array(cols).T)
+        Jerr.append(float(np.max(errs)))
     out["Jn"] = Jn
+    out["Jn_err"] = Jerr
     if comps is not None:
         C = np.array(comps, dtype=float)              # (m, d)
         v = np.asarray(c.vec_to_cart(arg, C[0] if single else C.T), dtype=float)
@@ -417,19 +452,26 @@ def cs_monitor(sys, real, k, scale):
     B, J, h, M, Jn = real["B"][k], real["J"][k], real["h"][k], real["M"][k], real["Jn"][k]
     d = B.shape[0]
     bad = []
-    if maxdiff(B @ B.T, np.eye(d)) > 1e-11:
+    if not all(np.all(np.isfinite(np.asarray(X, dtype=float))) for X in (B, J, h, M, real["vf"][k])) \
+            or not math.isfinite(scale):
+        # (a non-finite entry would also make the scale of the tolerances below non-finite)
+        return [("non-finite-entries", {"B": jl(B), "J": jl(J), "h": jl(h), "vf": real["vf"][k]})]
+    if exceeds(maxdiff(B @ B.T, np.eye(d)), 1e-11):
         bad.append(("basis-not-orthonormal", jl(B @ B.T)))
-    if abs(np.linalg.det(B) - 1) > 1e-11:
+    if exceeds(abs(np.linalg.det(B) - 1), 1e-11):
         bad.append(("basis-not-right-handed", float(np.linalg.det(B))))
-    if maxdiff(J, B.T * h[None, :]) > 1e-11 * scale:
+    if exceeds(maxdiff(J, B.T * h[None, :]), 1e-11 * scale):
         bad.append(("basis-not-normalised-jacobian-columns", {"J": jl(J), "B^T diag(h)": jl(B.T * h[None, :])}))
-    if maxdiff(np.linalg.norm(J, axis=0), h) > 1e-11 * scale or np.any(h < 0):
+    if exceeds(maxdiff(np.linalg.norm(J, axis=0), h), 1e-11 * scale) or not np.all(h >= 0):
         bad.append(("scale-factors-not-column-norms", {"h": jl(h), "norms": jl(np.linalg.norm(J, axis=0))}))
-    if maxdiff(J, Jn) > 2e-5 * scale:
-        bad.append(("jacobian-not-derivative-of-pos_to_cart", {"J": jl(J), "numerical": jl(Jn)}))
-    if maxdiff(M, np.diag(h ** 2)) > 1e-11 * scale ** 2:
+    # J against the extrapolated finite differences of pos_to_cart: FD_TOL of the scale, widened by the
+    # stencils' own error estimate where the map varies quickly (near the foci of the bipolar systems)
+    if exceeds(maxdiff(J, Jn), FD_TOL * scale + real["Jn_err"][k]):
+        bad.append(("jacobian-not-derivative-of-pos_to_cart",
+                    {"J": jl(J), "numerical": jl(Jn), "stencil_error_estimate": real["Jn_err"][k]}))
+    if exceeds(maxdiff(M, np.diag(h ** 2)), 1e-11 * scale ** 2):
         bad.append(("metric-not-diag-h2", jl(M)))
-    if abs(np.linalg.det(J) - real["vf"][k]) > 1e-10 * max(1.0, scale ** d):
+    if exceeds(abs(np.linalg.det(J) - real["vf"][k]), 1e-10 * max(1.0, scale ** d)):
         bad.append(("volume-factor-not-det-jacobian", {"det": float(np.linalg.det(J)), "vf": real["vf"][k]}))
     return bad
 
@@ -562,6 +604,15 @@ def vtc_real(spec, pts, comps):
     return np.asarray(g._vector_to_cartesian(P, C.T), dtype=float).T     # (m, dim)
 
 
+def vtc_real_extra(spec, pts):
+    """`c.pos_to_cart` and `c.basis_rotation` of the grid's coordinate system, point by point"""
+    g = build(spec)
+    P = np.array(pts, dtype=float)
+    pos = [np.asarray(g.c.pos_to_cart(p), dtype=float) for p in P]
+    rot = [np.asarray(g.c.basis_rotation(p), dtype=float) for p in P]
+    return pos, rot
+
+
 def vtc_case(ctx, P, case):
     spec = case["spec"]
     cls = spec["cls"]
@@ -601,13 +652,54 @@ def vtc_case(ctx, P, case):
         if val is None:
             return
         ctx.impl_traces += 1
-        if maxdiff(mat_f(val["code"]), obs) > 1e-11 * scale:
+        if exceeds(maxdiff(mat_f(val["code"]), obs), 1e-11 * scale):
             ctx.disagree("vtc", case, jl(mat_f(val["code"])), jl(obs), f"{cls} _vector_to_cartesian")
-        elif maxdiff(mat_f(val["op"]), exp_op) > 1e-11 * scale:
+        elif exceeds(maxdiff(mat_f(val["op"]), exp_op), 1e-11 * scale):
             ctx.disagree("vtc", case, jl(mat_f(val["op"])), jl(exp_op),
                          f"{cls}: the model's contraction by name differs from the harness' closed forms")
     P.add("c19.tocart", {"cls": cls, "n": len(spec["shape"]),
                          "pts": case["angs"], "comps": [[q(x) for x in c] for c in comps]}, cont)
+
+    # `posToCart` of the model (the map whose Jacobian the theorems speak about) vs `c.pos_to_cart`, and the
+    # model's tensor rule `B^T T B` vs the same contraction done by numpy with the REAL `c.basis_rotation`
+    # (py-pde itself converts no tensors: `Tensor2Field.interpolate_to_grid` raises NotImplementedError)
+    try:
+        pos, rot = vtc_real_extra(spec, case["pts"])
+    except Exception as e:
+        ctx.monitor_fail("vtc", case, f"{type(e).__name__}: {e}", "positions and basis matrices",
+                         "pos_to_cart / basis_rotation: exception",
+                         key=other_key(spec, "CoordinatesBase.pos_to_cart/basis_rotation", "exception"))
+        return
+    m = len(case["pts"])
+    rz = [[p[0], (p[2] if cls == "cylindrical" else 0.0)] for p in case["pts"]]
+    rs = np.random.RandomState(case.get("tensor_seed", 0))
+    tens = rs.randint(-16, 17, size=(m, d, d)) / 4.0
+    rscale = max(1.0, max(abs(x) for p in rz for x in p))
+
+    def cont_pos(resp):
+        val = model_ok(ctx, resp, "vtc", case)
+        if val is None:
+            return
+        ctx.impl_traces += 1
+        for k in range(m):
+            if exceeds(maxdiff(vec_f(val[k]), pos[k]), 1e-11 * rscale):
+                ctx.disagree("vtc", dict(case, point=k), jl(vec_f(val[k])), jl(pos[k]), f"{cls} pos_to_cart")
+                return
+    P.add("c19.postocart", {"cls": cls, "pts": [[q(x) for x in p] + list(a) for p, a in zip(rz, case["angs"])]},
+          cont_pos)
+
+    def cont_tensor(resp):
+        val = model_ok(ctx, resp, "vtc", case)
+        if val is None:
+            return
+        for k in range(m):
+            want = np.einsum("ia,ij,jb->ab", rot[k], tens[k], rot[k])
+            if exceeds(maxdiff(mat_f(val["code"][k]), want), 1e-10 * 16):
+                ctx.disagree("vtc", dict(case, point=k), jl(mat_f(val["code"][k])), jl(want),
+                             f"{cls}: tensorToCartesian of the model vs B^T T B with the real basis_rotation")
+                return
+    P.add("c19.tocart2", {"cls": cls, "n": len(spec["shape"]), "pts": case["angs"],
+                          "tensors": [[[q(float(x)) for x in row] for row in t] for t in tens]}, cont_tensor)
 
 
 def leg_vtc(ctx, P, rng, n):
@@ -627,7 +719,8 @@ def leg_vtc(ctx, P, rng, n):
                 kind = "random"
                 comps = [rng.sample([x / 4 for x in range(-20, 21) if x != 0], d) for _ in range(m)]
             case = {"leg": "vtc", "spec": spec, "stream": stream, "kind": kind, "pts": pts,
-                    "angs": [[q(x) for x in a] for a in angs], "comps": comps}
+                    "angs": [[q(x) for x in a] for a in angs], "comps": comps,
+                    "tensor_seed": rng.randrange(2 ** 31)}
             vtc_case(ctx, P, case)
         else:
             spec = gen_cart_grid(rng, unit=(cls == "unit"))
@@ -638,26 +731,48 @@ def leg_vtc(ctx, P, rng, n):
             vtc_case(ctx, P, {"leg": "vtc", "spec": spec, "kind": "random", "pts": pts, "angs": None,
                               "comps": comps})
     # malformed: wrong number of coordinates / components
-    import pde
+    for cls in ("polar", "spherical", "cylindrical", "cartesian"):
+        spec = gen_curv_grid(rng, cls, 2, 4) if cls in OP_ORDER else gen_cart_grid(rng)
+        for what in ("points", "components", "batch"):
+            vtc_malformed_case(ctx, P, {"leg": "vtc-malformed", "spec": spec, "wrong": what})
+
+
+def vtc_malformed_case(ctx, P, case):
+    """`_vector_to_cartesian` with a wrong number of coordinates / components / a batch of components whose
+    shape does not match the batch of points: the `DimensionError` branch (also the replay of such a case).
+    The first two are also put to the model (`vectorToCartesianChecked`); the batch-shape check has no
+    counterpart in the pointwise model and is monitored only"""
     from pde.grids.coordinates.base import DimensionError
-    for cls in ("polar", "spherical", "cylindrical"):
-        spec = gen_curv_grid(rng, cls, 2, 4)
-        g = build(spec)
-        d = dim_of(spec)
-        for what, pts, comps in (("points", np.ones(d - 1), np.ones(d)), ("components", np.ones(d), np.ones(d + 1))):
-            case = {"leg": "vtc-malformed", "spec": spec, "wrong": what}
-            ctx.count(case, nontrivial=False, leg="vtc-malformed")
-            try:
-                g._vector_to_cartesian(pts, comps)
-                got = "no-error"
-            except DimensionError:
-                got = "DimensionError"
-            except Exception as e:
-                got = type(e).__name__
-            ctx.hist("malformed", f"vtc/{what}/{got}")
-            if got != "DimensionError":
-                ctx.monitor_fail("vtc-malformed", case, got, "DimensionError", "_vector_to_cartesian: wrong shape accepted",
-                                 key=other_key(spec, "GridBase._vector_to_cartesian", "shape check"))
+    spec, what = case["spec"], case["wrong"]
+    g = build(spec)
+    d = dim_of(spec)
+    pts, comps = {"points": (np.ones(d - 1) if d > 1 else np.ones(2), np.ones(d)),
+                  "components": (np.ones(d), np.ones(d + 1)),
+                  "batch": (np.ones((3, d)), np.ones((d, 2)))}[what]
+    ctx.count(case, nontrivial=False, leg="vtc-malformed")
+    ctx.monitor_evals += 1
+    try:
+        g._vector_to_cartesian(pts, comps)
+        got = "no-error"
+    except DimensionError:
+        got = "DimensionError"
+    except Exception as e:
+        got = type(e).__name__
+    ctx.hist("malformed", f"vtc/{what}/{got}")
+    if got != "DimensionError":
+        ctx.monitor_fail("vtc-malformed", case, got, "DimensionError", "_vector_to_cartesian: wrong shape accepted",
+                         key=other_key(spec, "GridBase._vector_to_cartesian", "shape check"))
+    if what != "batch":
+        def cont(resp):
+            val = model_ok(ctx, resp, "vtc-malformed", case)
+            if val is None:
+                return
+            ctx.impl_traces += 1
+            if (val == "DimensionError") != (got == "DimensionError"):
+                ctx.disagree("vtc-malformed", case, val if isinstance(val, str) else "a vector", got,
+                             "_vector_to_cartesian shape checks")
+        P.add("c19.tocart_checked", {"cls": spec["cls"], "n": len(spec["shape"]), "ncoords": int(np.size(pts)),
+                                     "pt": ["1", "0", "1", "0"], "comps": ["1"] * int(np.size(comps))}, cont)
 
 
 
@@ -674,13 +789,21 @@ def order_real(spec):
                 out[store][name] = int(g.get_axis_index(name, allow_symmetric=allow))
             except IndexError:
                 out[store][name] = None
+            except Exception as e:   # any other exception is an outcome of its own (never equal to an index)
+                out[store][name] = f"{type(e).__name__}: {e}"
     return out
 
 
 def order_case(ctx, P, case):
     spec = case["spec"]
     cls = spec["cls"]
-    real = order_real(spec)
+    try:
+        real = order_real(spec)
+    except Exception as e:
+        ctx.monitor_fail("order", case, f"{type(e).__name__}: {e}", "axes, axes_symmetric, get_axis_index",
+                         "component order: exception in py-pde",
+                         key=other_key(spec, "GridBase.axes/axes_symmetric", "exception"))
+        return
     ctx.count(case, nontrivial=cls in OP_ORDER, leg="order")
     ctx.hist("order", cls)
     ctx.monitor_evals += 1
@@ -819,10 +942,12 @@ def fields_case(ctx, P, case):
         if maxdiff(v[k].data, exp_v[k]) > 1e-11 * sc:
             fail("field[k] is component k", "data differ", f"component {k}", "VectorField.__getitem__", "wrong component by index")
         if got_lab[name] != f"{name} component":
+            # the literal clause "every part of the package uses one and the same component order": the label
+            # must name the axis whose component was returned.  The `c.axes[index]` reading on cylindrical
+            # grids is a defect of its own (LABEL_KEY), anything else gets another key
             swapped = cls == "cylindrical" and got_lab[name] == f"{CS_ORDER[cls][k]} component"
-            key = dict(KNOWN_KEY, observed_at="VectorField.__getitem__ label") if swapped else None
             fail("the label of field[name] names the axis asked for", got_lab[name], f"{name} component", "VectorField.__getitem__",
-                 "label names another axis", {"name": name}, key=key)
+                 "label names another axis", {"name": name}, key=dict(LABEL_KEY) if swapped else None)
     for a in want:
         for b in want:
             try:
@@ -876,6 +1001,17 @@ def fields_case(ctx, P, case):
     if got != "DimensionError":
         fail("Tensor2Field.from_expression with a wrong number of rows", got, "DimensionError",
              "Tensor2Field.from_expression", "expression count check")
+    try:
+        pde.Tensor2Field.from_expression(g, [[poly_text(vco[0])] * (d + 1)] + [[poly_text(vco[0])] * d] * (d - 1))
+        got = "no-error"
+    except DimensionError:
+        got = "DimensionError"
+    except Exception as e:
+        got = type(e).__name__
+    ctx.hist("malformed", f"Tensor2Field.from_expression/row-length/{got}")
+    if got != "DimensionError":
+        fail("Tensor2Field.from_expression with a row of the wrong length", got, "DimensionError",
+             "Tensor2Field.from_expression", "expression count check")
     # --- Tensor2Field.interpolate_to_grid is not implemented (expected error class)
     try:
         t.interpolate_to_grid(pde.CartesianGrid([(0.0, 0.1)] * d, 1))
@@ -900,7 +1036,7 @@ def fields_case(ctx, P, case):
     alt = {"vv": (u @ x).data, "vt": u.make_dot_operator(backend="numpy")(u.data, T.data),
            "tv": T.make_dot_operator(backend="numpy")(T.data, x.data),
            "tt": (T @ S).data, "outer": u.make_outer_prod_operator(backend="numpy")(u.data, x.data),
-           "trace": T.to_scalar("trace").data if False else T.trace().data}
+           "trace": T.to_scalar("trace").data}
     alt_vv2 = u.make_dot_operator(backend="numpy")(u.data, x.data)
     sq = u.to_scalar("squared_sum").data
     ud, xd, Td, Sd = u.data, x.data, T.data, S.data
@@ -968,12 +1104,13 @@ def fields_case(ctx, P, case):
         for name in ALL_NAMES:
             mv = val["v"][name]
             rv = None if got_v[name] is None else float(got_v[name][cell])
-            if (mv is None) != (rv is None) or (mv is not None and abs(fl(mv) - rv) > 1e-11 * sc):
+            if (mv is None) != (rv is None) or (mv is not None and exceeds(abs(fl(mv) - rv), 1e-11 * sc)):
                 ctx.disagree("fields", dict(case, name=name), mv, rv, f"{cls} field['{name}']")
                 return
         for (a, b, mv), (a2, b2, dat) in zip(val["t"], got_t):
             rv = None if dat is None else float(dat[cell])
-            if (a, b) != (a2, b2) or (mv is None) != (rv is None) or (mv is not None and abs(fl(mv) - rv) > 1e-11 * sc):
+            if (a, b) != (a2, b2) or (mv is None) != (rv is None) or \
+                    (mv is not None and exceeds(abs(fl(mv) - rv), 1e-11 * sc)):
                 ctx.disagree("fields", dict(case, names=[a, b]), mv, rv, f"{cls} tensor['{a}','{b}']")
                 return
     P.add("c19.getitem", {"cls": cls, "n": len(spec["shape"]),
@@ -992,17 +1129,42 @@ def fields_case(ctx, P, case):
                 return
     P.add("c19.order", {"cls": cls, "n": len(spec["shape"])}, cont_order)
 
+    # `vals[i]` = value of the i-th expression handed to `from_expression` at the cell (evaluated by the
+    # harness: the expression language is C15's); the model places them (`fromExpressions`) and picks them
+    # by axis name (`getitem`): the composition `from_expression_getitem` speaks about, against the data of
+    # the real `from_expression(...)` and of the real `field[name]`
     def cont_expr(resp):
         val = model_ok(ctx, resp, "fields", case)
         if val is None:
             return
-        if val == "DimensionError" or maxdiff(vec_f(val), v.data[(slice(None),) + cell]) > 1e-11 * sc:
+        if not isinstance(val, dict) or exceeds(maxdiff(vec_f(val["comps"]), v.data[(slice(None),) + cell]), 1e-11 * sc):
             ctx.disagree("fields", case, val, jl(v.data[(slice(None),) + cell]), f"{cls} from_expression")
+            return
+        for name in ALL_NAMES:
+            mv = val["byname"][name]
+            rv = None if got_v[name] is None else float(got_v[name][cell])
+            if (mv is None) != (rv is None) or (mv is not None and exceeds(abs(fl(mv) - rv), 1e-11 * sc)):
+                ctx.disagree("fields", dict(case, name=name), mv, rv, f"{cls} from_expression(...)['{name}']")
+                return
     P.add("c19.fromexpr", {"cls": cls, "n": len(spec["shape"]),
                            "vals": [q(float(exp_v[(k,) + cell])) for k in range(d)]}, cont_expr)
     P.add("c19.fromexpr", {"cls": cls, "n": len(spec["shape"]), "vals": ["1"] * (d + 1)},
           lambda resp: (resp != ("ok", "DimensionError")) and ctx.disagree(
               "fields", case, resp, "DimensionError", "expression count"))
+
+    def cont_expr2(resp):
+        val = model_ok(ctx, resp, "fields", case)
+        if val is None:
+            return
+        real_t = t.data[(slice(None), slice(None)) + cell]
+        if val == "DimensionError" or exceeds(maxdiff(mat_f(val), real_t), 1e-11 * sc):
+            ctx.disagree("fields", case, val, jl(real_t), f"{cls} Tensor2Field.from_expression")
+    P.add("c19.fromexpr2", {"cls": cls, "n": len(spec["shape"]),
+                            "vals": [[q(float(exp_t[(i, j) + cell])) for j in range(d)] for i in range(d)]}, cont_expr2)
+    for bad_vals, what_bad in (([["1"] * d] * (d - 1), "row count"), ([["1"] * (d + 1)] + [["1"] * d] * (d - 1), "row length")):
+        P.add("c19.fromexpr2", {"cls": cls, "n": len(spec["shape"]), "vals": bad_vals},
+              lambda resp, what_bad=what_bad: (resp != ("ok", "DimensionError")) and ctx.disagree(
+                  "fields", case, resp, "DimensionError", f"tensor expression {what_bad}"))
 
     def cont_prod(resp):
         val = model_ok(ctx, resp, "fields", case)
@@ -1043,22 +1205,28 @@ def gen_fields_case(rng, cls):
             "data_seed": rng.randrange(2 ** 31), "angle": [q(ct), q(st), q(cp), q(sp)]}
 
 
+def fields_case_guarded(ctx, P, case):
+    """`fields_case`; an exception raised inside py-pde on these valid inputs is a monitor failure with the
+    case as failing input (an exception of the harness itself still aborts the check)"""
+    try:
+        fields_case(ctx, P, case)
+    except Exception as e:
+        if "harness" in type(e).__module__:
+            raise
+        import traceback
+        tb = traceback.extract_tb(e.__traceback__)
+        in_repo = any("/pde/" in f.filename for f in tb)
+        if not in_repo:
+            raise
+        where = next((f"{f.filename.split('/pde/')[-1]}:{f.lineno}" for f in reversed(tb) if "/pde/" in f.filename), "?")
+        ctx.monitor_fail("fields", case, f"{type(e).__name__}: {e} (pde/{where})", "no exception",
+                         "fields: exception in py-pde", key=other_key(case["spec"], "fields", "exception"))
+
+
 def leg_fields(ctx, P, rng, n):
     for i in range(n):
         cls = ["polar", "spherical", "cylindrical", "cylindrical", "cartesian", "unit"][i % 6]
-        case = gen_fields_case(rng, cls)
-        try:
-            fields_case(ctx, P, case)
-        except Exception as e:
-            if "harness" in type(e).__module__:
-                raise
-            import traceback
-            tb = traceback.extract_tb(e.__traceback__)
-            in_repo = any("/pde/" in f.filename for f in tb)
-            if not in_repo:
-                raise
-            ctx.monitor_fail("fields", case, f"{type(e).__name__}: {e}", "no exception", "fields: exception in py-pde",
-                             key=other_key(case["spec"], "fields", "exception"))
+        fields_case_guarded(ctx, P, gen_fields_case(rng, cls))
 
 
 
@@ -1177,7 +1345,6 @@ def convert_eval(ctx, P, case, out):
     exp_cs = expected_cart(cls, CS_ORDER[cls], f, ct, st, cp, sp)
     scale = max(1.0, float(np.abs(np.array(f)).max()))
     tol = 1.05 * interp_bound(spec, comps) + 1e-10 * scale
-    separable = maxdiff(exp_op, exp_cs) > 20 * tol
     nonzero = sum(1 for c in comps if any(v != 0 for v in c.values()))
     ctx.count(case, nontrivial=(nonzero >= 1), leg="convert")
     ctx.hist("convert", f"{cls}/{case['kind'].split(':')[0]}/{case['route']}/{case['mode']}")
@@ -1188,9 +1355,9 @@ def convert_eval(ctx, P, case, out):
         ctx.monitor_fail("convert", case, [out["result_type"], list(obs.shape)], ["VectorField", list(exp_op.shape)],
                          "interpolate_to_grid: result type/shape", key=other_key(spec, "VectorField.interpolate_to_grid", "result shape"))
         return
-    key = classify_conversion(spec, obs, exp_op, exp_cs if separable or cls == "cylindrical" else None, tol)
+    key = classify_conversion(spec, obs, exp_op, exp_cs, tol)
     if key is not None:
-        worst = np.unravel_index(np.argmax(np.abs(obs - exp_op).max(axis=0)), obs.shape[1:])
+        worst = np.unravel_index(np.argmax(np.nan_to_num(np.abs(obs - exp_op), nan=np.inf).max(axis=0)), obs.shape[1:])
         ctx.monitor_fail("convert", case,
                          {"at_cartesian_point": jl(X[worst]), "converted": jl(obs[(slice(None),) + worst])},
                          {"expected": jl(exp_op[(slice(None),) + worst]), "tolerance": tol},
@@ -1210,8 +1377,8 @@ def convert_eval(ctx, P, case, out):
             return
         ctx.impl_traces += 1
         m = mat_f(val["code"])
-        if maxdiff(m, obsf[idx]) > 1e-11 * scale:
-            k = int(np.argmax(np.abs(m - obsf[idx]).max(axis=1)))
+        if exceeds(maxdiff(m, obsf[idx]), 1e-11 * scale):
+            k = int(np.argmax(np.nan_to_num(np.abs(m - obsf[idx]), nan=np.inf).max(axis=1)))
             ctx.disagree("convert", dict(case, point=jl(np.ravel(X.reshape(n, d)[idx[k]]))), jl(m[k]), jl(obsf[idx[k]]),
                          f"{cls} interpolate_to_grid vs model conversion of the interpolated grid components")
     P.add("c19.tocart", {"cls": cls, "n": len(spec["shape"]),
@@ -1276,6 +1443,63 @@ def poly_diff(co, var):
 BC = "auto_periodic_neumann"
 
 
+def _q(a, b=None):
+    return {"": 0.0, a: 1.0} if b is None else {"": 0.0, a: 1.0, b: 1.0}
+
+
+def operator_probes(cls):
+    """probes of the remaining differential operators (vector gradient, vector Laplacian, tensor divergence):
+    (operator, input entries by axis NAME, expected non-zero entries of the result by axis name), from the
+    continuum formulas of tensor calculus in cylindrical / polar / spherical coordinates for axisymmetric
+    fields, with `(grad v)[a, b] = nabla_b v_a` and `(div T)_a = nabla_b T_ab` (py-pde's conventions).  All
+    inputs are polynomials of degree <= 2, for which the central differences are exact in interior cells.
+    An operator that read component k as another axis than the k-th of the order gives other entries."""
+    R, R2, R2x2 = _q("r"), _q("rr"), {"": 0.0, "r": 2.0}
+    Rm = {"": 0.0, "r": -1.0}
+    c = lambda v: {"": float(v)}
+    if cls == "cylindrical":
+        return [
+            ("vgrad", {"r": R2}, {"r,r": R2x2, "φ,φ": R}),
+            ("vgrad", {"z": _q("rr", "zz")}, {"z,r": R2x2, "z,z": {"": 0.0, "z": 2.0}}),
+            ("vgrad", {"φ": R2}, {"φ,r": R2x2, "r,φ": Rm}),
+            ("vlap", {"r": R2}, {"r": c(3)}),
+            ("vlap", {"z": _q("rr", "zz")}, {"z": c(6)}),
+            ("vlap", {"φ": R2}, {"φ": c(3)}),
+            ("tdiv", {"z,z": _q("z")}, {"z": c(1)}),
+            ("tdiv", {"φ,φ": R}, {"r": c(-1)}),
+            ("tdiv", {"r,φ": R}, {"φ": c(1)}),
+            ("tdiv", {"z,r": R}, {"z": c(2)}),
+            ("tdiv", {"r,z": _q("z")}, {"r": c(1)}),
+        ]
+    if cls == "polar":
+        return [
+            ("vgrad", {"r": R2}, {"r,r": R2x2, "φ,φ": R}),
+            ("vgrad", {"φ": R2}, {"φ,r": R2x2, "r,φ": Rm}),
+            ("tdiv", {"r,r": R}, {"r": c(2)}),
+            ("tdiv", {"φ,φ": R}, {"r": c(-1)}),
+            ("tdiv", {"r,φ": R}, {"φ": c(1)}),
+            ("tdiv", {"φ,r": R}, {"φ": c(2)}),
+        ]
+    # spherical grids: the operators only accept fields whose result is spherically symmetric
+    return [
+        ("vgrad", {"r": R2}, {"r,r": R2x2, "θ,θ": R, "φ,φ": R}),
+        ("tdiv", {"r,r": R}, {"r": c(3)}),
+        ("tdiv", {"θ,θ": R, "φ,φ": R}, {"r": c(-2)}),
+    ]
+
+
+def probe_arrays(spec, entries, rank, g):
+    """data array of a vector / tensor field whose entries (by axis name) are the given polynomials"""
+    order = OP_ORDER[spec["cls"]]
+    d = len(order)
+    vals = grid_axis_values(g)
+    data = np.zeros((d,) * rank + tuple(g.shape))
+    for names, co in entries.items():
+        idx = tuple(order.index(nm) for nm in names.split(","))
+        data[idx] = np.broadcast_to(poly_eval(co, **{k: v for k, v in vals.items()}), g.shape)
+    return data
+
+
 def commute_worker(case):
     import pde
     g = build(case["spec"])
@@ -1288,6 +1512,18 @@ def commute_worker(case):
         s = pde.ScalarField(g, field_data(case["spec"], [case["scalar"]], g)[0])
         res["grad"] = np.asarray(s.gradient(BC).data, dtype=float)
         res["cell_coords"] = np.asarray(g.cell_coords, dtype=float)
+        if case.get("ext"):
+            for i, (op, inp, _) in enumerate(operator_probes(case["spec"]["cls"])):
+                try:
+                    if op == "tdiv":
+                        out = pde.Tensor2Field(g, probe_arrays(case["spec"], inp, 2, g)).divergence(BC).data
+                    else:
+                        v = pde.VectorField(g, probe_arrays(case["spec"], inp, 1, g))
+                        out = (v.gradient(BC) if op == "vgrad" else v.laplace(BC)).data
+                    res[f"probe{i}"] = np.asarray(out, dtype=float)
+                except Exception as e:      # reported by the monitor with the probe as failing input
+                    import traceback
+                    res[f"probe{i}"] = "EXC: " + traceback.format_exc()[-600:]
         return res
     cart = build(case["cart"])
     if kind == "div":
@@ -1305,11 +1541,131 @@ def commute_worker(case):
     raise ValueError(kind)
 
 
-COMMUTE_TOL = 0.08
+# tolerance of "commutes up to discretisation error":  COMMUTE_TOL * S + COMMUTE_ABS * H2 * D3  with
+#   S  = max over the points of  sum over ALL components k of |d_r f_k| + |d_z f_k| + |f_k| / rho
+#        (size of the first derivatives of the Cartesian components; rho = distance from the axis, where the
+#        unit vectors e_r, e_phi are singular)
+#   D3 = max of  sum_k |f_k| / rho^3 + |grad f_k| / rho^2 + |grad grad f_k| / rho   (size of their third
+#        derivatives: the truncation error of the central differences on the Cartesian grid is dx^2/6 times
+#        those; the polynomials have degree <= 2)
+#   H2 = max dx_i^2 + dr^2 (+ dz^2)
+# measured on the unchanged tree (notes/C19.md, 12,000 generated cases, source semantics): the largest
+# deviation is 0.28 of the tolerance (99th percentile 0.16); the generator redraws the coefficients until every
+# wrong reading of the component order deviates by more than 3 x the tolerance (reached in > 99.9 % of the
+# cases; a case counts as non-trivial if the factor is > 2)
+COMMUTE_TOL = 0.04
+COMMUTE_ABS = 1.0
+PROBE_TOL = 1e-9
 
 
 def interior(a, d):
     return a[(Ellipsis,) + (slice(1, -1),) * d]
+
+
+def field_scales(named_polys, r, z, rho):
+    """(S, D3) of a field with the polynomial grid components [(axis name, polynomial in r, z)]:
+    sizes of the first and of the third derivatives of its Cartesian components (see above).  The unit
+    vectors e_r, e_phi, e_theta vary like 1/rho, e_z is constant: a z-component only contributes through
+    its dependence on r"""
+    S = D3 = 0.0
+    ev = lambda c: np.abs(poly_eval(c, r=r, z=z) + 0 * r)
+    for name, co in named_polys:
+        cr, cz = poly_diff(co, "r"), poly_diff(co, "z")
+        v, vr, vz = ev(co), ev(cr), ev(cz)
+        vrr, vrz, vzz = ev(poly_diff(cr, "r")), ev(poly_diff(cr, "z")), ev(poly_diff(cz, "z"))
+        if name == "z":
+            S = S + vr + vz
+            D3 = D3 + vr / rho ** 2 + (vrr + vrz) / rho
+        else:
+            S = S + vr + vz + v / rho
+            D3 = D3 + v / rho ** 3 + (vr + vz) / rho ** 2 + (vrr + vrz + vzz) / rho
+    return float(np.max(S)), float(np.max(D3))
+
+
+def mesh_h2(case):
+    spec = case["spec"]
+    r_in, r_out = radii(spec)
+    h2 = ((r_out - r_in) / spec["shape"][0]) ** 2
+    if spec["cls"] == "cylindrical":
+        h2 += ((spec["bounds_z"][1] - spec["bounds_z"][0]) / spec["shape"][1]) ** 2
+    return h2 + max((b[1] - b[0]) / n for b, n in zip(case["cart"]["bounds"], case["cart"]["shape"])) ** 2
+
+
+def commute_reference(case, X):
+    """continuum values at the Cartesian points X for every reading of the component order:
+    exact (the operators' order), known (the (r, phi, z) reading, cylindrical grids only), wrong (every other
+    reading that moves a component the operator differentiates), and the tolerance"""
+    spec = case["spec"]
+    cls = spec["cls"]
+    order = OP_ORDER[cls]
+    d = len(order)
+    r, z, ct, st, cp, sp = point_data(cls, X)
+    rho = np.hypot(X[..., 0], X[..., 1])
+    ev = lambda c: np.broadcast_to(poly_eval(c, r=r, z=z), r.shape) + 0.0
+    if case["kind"] == "div":
+        comps = case["comps"]
+
+        def value(reading):          # reading[k] = name of the axis component k is read along
+            out = np.zeros_like(r)
+            for k, nm in enumerate(reading):
+                if nm == "r":
+                    out = out + ev(poly_diff(comps[k], "r")) + (2.0 if cls == "spherical" else 1.0) * ev(comps[k]) / r
+                elif nm == "z":
+                    out = out + ev(poly_diff(comps[k], "z"))
+            return out
+        polys = list(zip(order, comps))
+    else:
+        sc = case["scalar"]
+        f = [ev(poly_diff(sc, nm)) if nm in ("r", "z") else np.zeros_like(r) for nm in order]
+
+        def value(reading):
+            return expected_cart(cls, list(reading), f, ct, st, cp, sp)
+        polys = [(nm, poly_diff(sc, nm)) for nm in order if nm in ("r", "z")]
+    exact = value(order)
+    known = value(CS_ORDER[cls]) if cls == "cylindrical" else None
+    moved = [k for k, nm in enumerate(order) if nm in ("r", "z")]
+    wrong = [value(p) for p in itertools.permutations(order) if any(p[k] != order[k] for k in moved)]
+    S, D3 = field_scales(polys, r, z, rho)
+    tol = COMMUTE_TOL * max(S, 1e-3) + COMMUTE_ABS * mesh_h2(case) * D3
+    sep = min(maxdiff(w, exact) for w in wrong)
+    return {"exact": exact, "known": known, "tol": tol, "scale": S, "separation": sep}
+
+
+def probes_eval(ctx, case, out):
+    """the remaining operators treat component k as the k-th axis of the order"""
+    spec = case["spec"]
+    cls = spec["cls"]
+    order = OP_ORDER[cls]
+    cc = out["cell_coords"]
+    r = cc[..., 0]
+    z = cc[..., 1] if cls == "cylindrical" else np.zeros_like(r)
+    inner = (slice(1, -1),) * len(spec["shape"])
+    names = {"vgrad": "vector gradient", "vlap": "vector Laplacian", "tdiv": "tensor divergence"}
+    for i, (op, inp, exp) in enumerate(operator_probes(cls)):
+        got = out.get(f"probe{i}")
+        ctx.monitor_evals += 1
+        ctx.hist("operator-probes", f"{cls}/{op}")
+        pcase = dict(case, probe={"operator": op, "input": inp, "expected": exp})
+        if isinstance(got, str):
+            ctx.monitor_fail("commute", pcase, got[-400:], "a field", f"operator probe: exception in py-pde ({names[op]})",
+                             key=other_key(spec, f"{names[op]} operator", "exception"))
+            continue
+        want = np.zeros_like(got)
+        for nm, co in exp.items():
+            idx = tuple(order.index(a) for a in nm.split(","))
+            want[idx] = np.broadcast_to(poly_eval(co, r=r, z=z), r.shape)
+        gi, wi = got[(Ellipsis,) + inner], want[(Ellipsis,) + inner]
+        if got.shape != want.shape or exceeds(maxdiff(gi, wi), PROBE_TOL * max(1.0, float(np.abs(wi).max()))):
+            if got.shape == want.shape:
+                rank = gi.ndim - len(spec["shape"])
+                amp = np.abs(gi).reshape(gi.shape[:rank] + (-1,)).max(axis=-1)
+                nz = sorted(",".join(order[j] for j in ix) for ix in zip(*np.nonzero(np.nan_to_num(amp, nan=1.0) > 1e-6)))
+            else:
+                nz = list(got.shape)
+            ctx.monitor_fail("commute", pcase, {"non-zero entries of the result": nz, "max_deviation": maxdiff(gi, wi)},
+                             {"non-zero entries": sorted(exp)},
+                             f"the {names[op]} operator does not treat component k as the k-th axis of the order",
+                             key=other_key(spec, f"{names[op]} operator", "component order of the operator"))
 
 
 def commute_eval(ctx, case, out):
@@ -1335,7 +1691,7 @@ def commute_eval(ctx, case, out):
                 continue
             exp = {"r": {"polar": 2.0, "cylindrical": 2.0, "spherical": 3.0}[cls], "z": 1.0, "φ": 0.0}[name]
             got = out[f"div{k}"][inner]
-            if maxdiff(got, np.full_like(got, exp)) > 0.02:
+            if exceeds(maxdiff(got, np.full_like(got, exp)), PROBE_TOL * 4):
                 ctx.monitor_fail("commute", dict(case, component=k), float(got.mean()), exp,
                                  "the divergence operator does not treat component k as the k-th axis of the order",
                                  key=other_key(spec, "divergence operator", "component order of the operator"))
@@ -1344,60 +1700,46 @@ def commute_eval(ctx, case, out):
             exp = poly_eval(poly_diff(sc, name), r=r, z=z) if name in ("r", "z") else 0.0
             exp = np.broadcast_to(exp, r.shape)[inner]
             got = out["grad"][k][inner]
-            if maxdiff(got, exp) > 0.02 * max(1.0, float(np.abs(exp).max())):
+            if exceeds(maxdiff(got, exp), PROBE_TOL * max(1.0, float(np.abs(exp).max()))):
                 ctx.monitor_fail("commute", dict(case, component=k), jl(got)[:3], jl(exp)[:3],
                                  "the gradient operator does not store d/d(axis k) as component k",
                                  key=other_key(spec, "gradient operator", "component order of the operator"))
+        if case.get("ext"):
+            probes_eval(ctx, case, out)
         return
     X = interior(np.moveaxis(out["cell_coords"], -1, 0), d)
     X = np.moveaxis(X, 0, -1)
-    r, z, ct, st, cp, sp = point_data(cls, X)
     a = interior(out["first_operator"], d)
     b = interior(out["first_conversion"], d)
-    if case["kind"] == "div":
-        comps = case["comps"]
-        fr = comps[0]
-        rad = poly_eval(poly_diff(fr, "r"), r=r, z=z) + (2.0 if cls == "spherical" else 1.0) * poly_eval(fr, r=r, z=z) / r
-        dz_of = lambda c: poly_eval(poly_diff(c, "z"), r=r, z=z) + 0 * r
-        if cls == "cylindrical":
-            exact = rad + dz_of(comps[order.index("z")])
-            known = rad + dz_of(comps[order.index("φ")])
-            scale = float((np.abs(rad) + np.abs(dz_of(comps[1])) + np.abs(dz_of(comps[2]))).max())
-        else:
-            exact, known = rad, None
-            scale = float((np.abs(poly_eval(poly_diff(fr, "r"), r=r, z=z) + 0 * r) + np.abs(poly_eval(fr, r=r, z=z) / r)).max())
-    else:
-        sc = case["scalar"]
-        gr = np.broadcast_to(poly_eval(poly_diff(sc, "r"), r=r, z=z), r.shape)
-        gz = np.broadcast_to(poly_eval(poly_diff(sc, "z"), r=r, z=z), r.shape)
-        f = [gr if nm == "r" else gz if nm == "z" else np.zeros_like(r) for nm in order]
-        exact = expected_cart(cls, OP_ORDER[cls], f, ct, st, cp, sp)
-        known = expected_cart(cls, CS_ORDER[cls], f, ct, st, cp, sp) if cls == "cylindrical" else None
-        scale = float((np.abs(gr) + np.abs(gz)).max())
-    scale = max(scale, 1e-3)
-    tol = COMMUTE_TOL * scale
-    separable = known is not None and maxdiff(exact, known) > 4 * tol
-    ctx.count(case, nontrivial=bool(np.abs(exact).max() > 4 * tol), leg="commute")
-    if cls != "cylindrical" or case["kind"] == "div":
-        ctx.hist("commute-error", "first_operator %.0e" % max(maxdiff(a, exact) / scale, 1e-4))
-    if cls != "cylindrical":
-        ctx.hist("commute-error", "first_conversion (polar, spherical) %.0e" % max(maxdiff(b, exact) / scale, 1e-4))
+    ref = commute_reference(case, X)
+    exact, known, tol, scale = ref["exact"], ref["known"], ref["tol"], ref["scale"]
+    # non-trivial: every wrong reading of the component order would deviate by more than twice the tolerance
+    ctx.count(case, nontrivial=bool(ref["separation"] > 2 * tol), leg="commute")
+    ctx.hist("commute-separation", "wrong order deviates by %s x tolerance" % (
+        "<1" if ref["separation"] < tol else "1-2" if ref["separation"] < 2 * tol else "2-5"
+        if ref["separation"] < 5 * tol else ">5"))
+    bucket = lambda e: "%.1f" % min(math.ceil(10 * e / tol) / 10, 9.9) if math.isfinite(e) else "nan"
     what = "divergence" if case["kind"] == "div" else "gradient"
     # (1) the operator applied on the grid, then converted (scalar: plain interpolation)
-    if case["kind"] == "div" and maxdiff(a, exact) > tol:
-        ctx.monitor_fail("commute", case, {"max_error": maxdiff(a, exact)}, {"tolerance": tol},
-                         "divergence on the grid deviates from the continuum divergence in the operators' order",
-                         key=other_key(spec, "divergence operator", "not the divergence of (f_k) in the operators' order"))
+    if case["kind"] == "div":
+        ctx.hist("commute-error/tolerance", "first_operator <= " + bucket(maxdiff(a, exact)))
+        if exceeds(maxdiff(a, exact), tol):
+            ctx.monitor_fail("commute", case, {"max_error": maxdiff(a, exact)}, {"tolerance": tol},
+                             "divergence on the grid deviates from the continuum divergence in the operators' order",
+                             key=other_key(spec, "divergence operator", "not the divergence of (f_k) in the operators' order"))
     # (2) converting commutes with the operator
     pairs = [("first_conversion", b)] + ([("first_operator", a)] if case["kind"] == "grad" else [])
     for nm, arr in pairs:
-        if maxdiff(arr, exact) <= tol:
+        dev = maxdiff(arr, exact)
+        if dev <= tol:
+            ctx.hist("commute-error/tolerance", f"{nm} <= " + bucket(dev))
             continue
         if known is not None and maxdiff(arr, known) <= tol:
+            ctx.hist("commute-error/tolerance", f"{nm} (r,phi,z reading) <= " + bucket(maxdiff(arr, known)))
             key = dict(KNOWN_KEY)
         else:
             key = other_key(spec, "VectorField.interpolate_to_grid", f"conversion does not commute with {what}")
-        ctx.monitor_fail("commute", dict(case, route_order=nm), {"max_deviation": maxdiff(arr, exact), "scale": scale},
+        ctx.monitor_fail("commute", dict(case, route_order=nm), {"max_deviation": dev, "scale": scale},
                          {"tolerance": tol}, f"conversion to Cartesian does not commute with the {what}", key=key)
 
 
@@ -1419,43 +1761,81 @@ def gen_commute_case(rng, cls, mode, kind):
         scalar = {"": 1.0, "rr": c8(2, 8)}
         if cls == "cylindrical":
             scalar["z"] = c8(8, 24)
-        return {"leg": "commute", "kind": kind, "spec": spec, "probes": probes, "scalar": scalar, "mode": mode}
+        # ext: also probe vector gradient, vector Laplacian and tensor divergence (`operator_probes`)
+        return {"leg": "commute", "kind": kind, "spec": spec, "probes": probes, "scalar": scalar, "mode": mode,
+                "ext": True}
     # boxes stay one unit away from the axis: e_r and e_phi are singular there, and finite differences
     # of a converted field with a non-vanishing angular/radial component on the axis do not converge
     cart = gen_cart_box(rng, spec, 1.6, [5, 6] if d == 3 else [6, 8], tries=3000, rho_min=1.0, max_dx=0.3)
     if cart is None:
         return None
-    if kind == "div":
-        comps = []
-        for name in order:
-            if name == "r":
-                c = {"": c8(), "r": c8(4, 12), "rr": c8(1, 3)}
-                if cls == "cylindrical":
-                    c["z"] = c8(1, 4)
-            elif name == "z":
-                c = {"": c8(), "z": c8(8, 16), "r": c8(1, 4)}
-            elif name == "φ":
-                c = {"": c8(), "r": c8(1, 6)}
-                if cls == "cylindrical":
-                    c["z"] = rng.choice([0.0, c8(8, 16)])
-            else:                      # spherical theta component must vanish for the divergence operator
-                c = {"": 0.0}
-            comps.append(c)
-        return {"leg": "commute", "kind": kind, "spec": spec, "cart": cart, "comps": comps,
-                "route": rng.choice(["expr", "data"]), "mode": mode}
-    scalar = {"": c8(), "r": c8(1, 4), "rr": c8(2, 6)}
-    if cls == "cylindrical":
-        scalar["z"] = c8(8, 16)
-        scalar["rz"] = c8(1, 2)
-    return {"leg": "commute", "kind": kind, "spec": spec, "cart": cart, "scalar": scalar, "mode": mode}
+    Xi = np.moveaxis(interior(np.moveaxis(cart_centres(cart), -1, 0), d), 0, -1)
+
+    def draw():
+        if kind == "div":
+            comps = []
+            cz = c8(8, 16)
+            for name in order:
+                if name == "r":
+                    c = {"": c8(), "r": c8(4, 12), "rr": c8(1, 3)}
+                    if cls == "cylindrical":
+                        c["z"] = c8(1, 4)
+                elif name == "z":
+                    c = {"": c8(), "z": cz, "r": c8(1, 4)}
+                elif name == "φ":
+                    c = {"": c8(), "r": c8(1, 6)}
+                    if cls == "cylindrical":
+                        c["z"] = rng.choice([0.0, c8(8, 16)])
+                else:                      # spherical theta component must vanish for the divergence operator
+                    c = {"": 0.0}
+                comps.append(c)
+            return {"leg": "commute", "kind": kind, "spec": spec, "cart": cart, "comps": comps,
+                    "route": rng.choice(["expr", "data"]), "mode": mode}
+        scalar = {"": c8(), "r": c8(1, 4), "rr": c8(2, 6)}
+        if cls == "cylindrical":
+            scalar["z"] = c8(8, 16)
+            scalar["rz"] = c8(1, 2)
+        return {"leg": "commute", "kind": kind, "spec": spec, "cart": cart, "scalar": scalar, "mode": mode}
+    # the coefficients are redrawn (at most 25 times, the best draw is kept) until every wrong reading of the
+    # component order would change the continuum result by more than 3 x the tolerance of the comparison
+    best, best_q = None, -1.0
+    for _ in range(25):
+        case = draw()
+        ref = commute_reference(case, Xi)
+        quality = ref["separation"] / ref["tol"]
+        if quality > best_q:
+            best, best_q = case, quality
+        if quality > 3:
+            break
+    return best
+
+
+MODE_ENV = {"S": {"NUMBA_DISABLE_JIT": "1"},
+            "J": {"NUMBA_DISABLE_JIT": "0", "NUMBA_NUM_THREADS": "2", "OMP_NUM_THREADS": "1"}}
+
+
+def gen_with_retry(ctx, what, gen, *args):
+    """the box generators use rejection sampling and may find no Cartesian box inside a (narrow) grid: draw
+    another grid then; every retry and every case finally given up is recorded in the evidence"""
+    for attempt in range(12):
+        c = gen(*args)
+        if c is not None:
+            ctx.hist("generator", f"{what}: box found" + (" after retries" if attempt else ""))
+            return c
+        ctx.hist("generator", f"{what}: no box in this grid, another grid drawn")
+    ctx.hist("generator", f"{what}: GIVEN UP (case dropped)")
+    ctx.note(f"generator: no Cartesian box found for a {what} case after 12 grids - case dropped")
+    return None
 
 
 def leg_subprocess(ctx, P, rng, n_convert, n_commute, n_jit):
     from harness.common.isolated import run_many
     classes = ["polar", "spherical", "cylindrical", "cylindrical"]
-    conv = [c for c in (gen_convert_case(rng, classes[i % 4], "S") for i in range(n_convert)) if c]
+    conv = [c for c in (gen_with_retry(ctx, "convert", gen_convert_case, rng, classes[i % 4], "S")
+                        for i in range(n_convert)) if c]
     kinds = ["div", "grad", "div", "grad", "op-order"]
-    comm = [c for c in (gen_commute_case(rng, classes[i % 4], "S", kinds[i % 5]) for i in range(n_commute)) if c]
+    comm = [c for c in (gen_with_retry(ctx, "commute/" + kinds[i % 5], gen_commute_case, rng, classes[i % 4], "S",
+                                       kinds[i % 5]) for i in range(n_commute)) if c]
     # regression anchors: the uniform axial field with and without hole
     for hole in (False, True):
         spec = {"cls": "cylindrical", "radius": [1.0, 3.0] if hole else 3.0, "bounds_z": [0.0, 4.0],
@@ -1468,9 +1848,13 @@ def leg_subprocess(ctx, P, rng, n_convert, n_commute, n_jit):
         cls = ["polar", "spherical", "cylindrical", "cartesian", "unit"][i % 5]
         spec = gen_curv_grid(rng, cls, 1, 6) if cls in OP_ORDER else gen_cart_grid(rng, unit=(cls == "unit"))
         prods.append({"leg": "products", "spec": spec, "data_seed": rng.randrange(2 ** 31), "mode": "S"})
+    # the compiled subset is stratified: conversions, divergence, gradient and operator probes (incl. the
+    # compiled vector gradient / vector Laplacian / tensor divergence, 1-3 s per grid) occur in it for every seed
     jit = []
+    pools = [conv, [c for c in comm if c["kind"] == "div"], conv, [c for c in comm if c["kind"] == "grad"],
+             conv, [c for c in comm if c["kind"] == "op-order"]]
     for i in range(n_jit):
-        src = conv if i % 2 == 0 else comm
+        src = pools[i % 6] or conv
         c = dict(src[rng.randrange(len(src))], mode="J")
         jit.append(c)
     comm = comm + prods
@@ -1509,9 +1893,9 @@ def leg_subprocess(ctx, P, rng, n_convert, n_commute, n_jit):
         if True:
             return run_many("harness.c19", "sub_worker", cases, env=env, procs=procs,
                             workdir=os.path.join(base, "iso_" + name)) if cases else []
-    th = [threading.Thread(target=go, args=("S", conv + comm, {"NUMBA_DISABLE_JIT": "1"}, 8 if jit else 16)),
-          threading.Thread(target=go, args=("J", jit, {"NUMBA_DISABLE_JIT": "0", "NUMBA_NUM_THREADS": "2", "OMP_NUM_THREADS": "1"}, 6)),
-          threading.Thread(target=go, args=("PJ", pj, {"NUMBA_DISABLE_JIT": "0", "NUMBA_NUM_THREADS": "2", "OMP_NUM_THREADS": "1"}, 2))]
+    th = [threading.Thread(target=go, args=("S", conv + comm, MODE_ENV["S"], 8 if jit else 16)),
+          threading.Thread(target=go, args=("J", jit, MODE_ENV["J"], 6)),
+          threading.Thread(target=go, args=("PJ", pj, MODE_ENV["J"], 2))]
     for t in th:
         t.start()
     for t in th:
@@ -1612,17 +1996,24 @@ def run(ctx):
     timed("order", leg_order, ctx, P, rng, ctx.budget(40, 400))
     timed("fields", leg_fields, ctx, P, rng, ctx.budget(60, 2000))
     timed("subprocess legs (convert, commute, products; S and J)", leg_subprocess, ctx, P, rng,
-          ctx.budget(160, 12000), ctx.budget(60, 3000), ctx.budget(6, 96))
+          ctx.budget(160, 12000), ctx.budget(240, 3000), ctx.budget(6, 96))
     timed("model driver", P.run)
     ctx.extra["timing_s"] = timing
 
 
 # ------------------------------------------------------------------------------------------
+EXTRA_CASE_KEYS = ("point", "name", "names", "product", "component", "route_order", "probe")
+IN_PROCESS_LEGS = ("coordsys", "vtc", "order", "fields", "vtc-malformed")
+SUBPROCESS_LEGS = ("convert", "commute", "products")
+
+
 def run_case(col, P, case):
-    """re-run one case of any leg on the real code with the monitors reporting into `col`"""
+    """re-run one recorded case of any leg on the real code - same leg, same inputs, same execution mode
+    (subprocess legs: source semantics 'S' = NUMBA_DISABLE_JIT=1 or compiled 'J', as recorded in the case) -
+    with the monitors reporting into `col`.  Raises ValueError for a case that cannot be re-run."""
     from harness.common.isolated import run_one
     leg = case.get("leg")
-    case = {k: v for k, v in case.items() if k not in ("point", "name", "names", "product", "component", "route_order")}
+    case = {k: v for k, v in case.items() if k not in EXTRA_CASE_KEYS}
     if leg == "coordsys":
         coordsys_case(col, P, case)
     elif leg == "vtc":
@@ -1630,28 +2021,22 @@ def run_case(col, P, case):
     elif leg == "order":
         order_case(col, P, case)
     elif leg == "fields":
-        fields_case(col, P, case)
-    elif leg in ("convert", "commute", "products"):
-        env = {"NUMBA_DISABLE_JIT": "0" if case.get("mode") == "J" else "1"}
-        out = run_one("harness.c19", "sub_worker", case, env=env)
+        fields_case_guarded(col, P, case)
+    elif leg == "vtc-malformed":
+        vtc_malformed_case(col, P, case)
+    elif leg in SUBPROCESS_LEGS:
+        mode = case.get("mode")
+        if mode not in MODE_ENV:
+            raise ValueError(f"case of leg {leg} without a recorded execution mode")
+        out = run_one("harness.c19", "sub_worker", case, env=MODE_ENV[mode])
         if leg == "convert":
             convert_eval(col, P, case, out)
         elif leg == "products":
             products_eval(col, case, out)
         else:
             commute_eval(col, case, out)
-    elif leg == "vtc-malformed":
-        from pde.grids.coordinates.base import DimensionError
-        g = build(case["spec"])
-        d = dim_of(case["spec"])
-        pts, comps = (np.ones(d - 1), np.ones(d)) if case["wrong"] == "points" else (np.ones(d), np.ones(d + 1))
-        try:
-            g._vector_to_cartesian(pts, comps)
-            col.monitor_fail(leg, case, "no-error", "DimensionError", "wrong shape accepted")
-        except DimensionError:
-            pass
     else:
-        raise ValueError(f"unknown leg {leg}")
+        raise ValueError(f"unknown leg {leg!r}")
 
 
 def search(ctx, broken):
@@ -1676,20 +2061,90 @@ def search(ctx, broken):
 
 
 def replay(ctx, rep):
-    case = rep["case"]
+    """re-run the recorded case and judge the recorded symptom: False iff it still fails.
+    A failing-input file records leg, what, case, key; the failure counts as reproduced if the re-run yields a
+    monitor failure with the same key (files written by the search carry no key: then the same `what`; with
+    neither, any failure that is not a known finding).  Other failures of the same case (a cylindrical case
+    also shows the known finding) are printed but not counted.  A file that cannot be re-run (no case, unknown
+    leg, no execution mode) is reported as such and does NOT pass."""
+    from harness.common import findings
+    if not isinstance(rep, dict):
+        print("cannot replay: not a replay record - not a pass")
+        return False
+    if rep.get("kind") == "no-failing-input-found" or "broken" in rep or "correspondence" in rep:
+        return replay_tie(ctx, rep)
+    case = rep.get("case")
+    if not isinstance(case, dict) or "leg" not in case:
+        print("cannot replay: the file records no case of a C19 leg (nothing was re-run) - not a pass")
+        return False
     col = Collector()
-    run_case(col, NoModel(), case)
-    if rep.get("key"):
-        # the replayed failure is identified by its key (a cylindrical case also shows the known finding)
-        other = [mf for mf in col.monitor_failures if mf["key"] != rep["key"]]
-        col.monitor_failures = [mf for mf in col.monitor_failures if mf["key"] == rep["key"]]
-        if other:
-            print(f"({len(other)} monitor failures with another key, e.g. {other[0]['key']}, not counted)")
-    for mf in col.monitor_failures[:5]:
+    try:
+        run_case(col, NoModel(), case)
+    except ValueError as e:
+        print(f"cannot replay: {e} - not a pass")
+        return False
+    known = findings.load()
+    want_key, want_what = rep.get("key") or None, rep.get("what")
+    if want_key:
+        same = lambda mf: mf["key"] == want_key
+        crit = f"key {want_key}"
+    elif want_what:
+        same = lambda mf: mf["what"] == want_what and findings.match(PID, mf["key"], known) is None
+        crit = f"symptom {want_what!r}"
+    else:
+        same = lambda mf: findings.match(PID, mf["key"], known) is None
+        crit = "any failure that is not a known finding"
+    hits = [mf for mf in col.monitor_failures if same(mf)]
+    other = [mf for mf in col.monitor_failures if not same(mf)]
+    print(f"replayed leg {case['leg']}" + (f" in mode {case.get('mode')}" if case.get("leg") in SUBPROCESS_LEGS else "")
+          + f"; judged by {crit}")
+    if other:
+        print(f"({len(other)} other monitor failures of this case, e.g. key {other[0]['key']}, not counted)")
+    for mf in hits[:5]:
         print("monitor failure:", mf["what"])
         print("  observed:", str(mf["observed"])[:400])
         print("  expected:", str(mf["expected"])[:400])
         print("  key:", mf["key"])
-    if not col.monitor_failures:
-        print("monitor: holds")
-    return not col.monitor_failures
+    if not hits:
+        print("monitor: the recorded symptom does not occur")
+    return not hits
+
+
+def replay_tie(ctx, rep):
+    """replay of a broken-tie record (no failing input of the property was found): the recorded cases are
+    re-run on the real code AND on the model; False iff model and code still disagree on one of them (or a
+    monitor failure that is not a known finding shows up); cases that cannot be re-run do not pass"""
+    from harness.common import findings
+    from harness.common.lean import BrokenCheck
+    entries = rep.get("broken") if isinstance(rep.get("broken"), list) else [rep]
+    cases = [b.get("case") for b in entries if isinstance(b, dict)]
+    cases = [c for c in cases if isinstance(c, dict) and c.get("leg") in IN_PROCESS_LEGS + SUBPROCESS_LEGS]
+    if not cases:
+        print("cannot replay: the record holds no case of a C19 leg (e.g. a proof obligation that no longer "
+              "builds: run ./check C19) - not a pass")
+        return False
+    col = Collector()
+    P = Pending(ctx)
+    ok = True
+    for c in cases:
+        try:
+            run_case(col, P, c)
+        except ValueError as e:
+            print(f"case could not be re-run: {e}")
+            ok = False
+    try:
+        P.run()
+    except BrokenCheck as e:
+        print(f"cannot replay: the model driver did not run ({str(e)[:200]}); build it with ./check C19 - not a pass")
+        return False
+    known = findings.load()
+    mfs = [mf for mf in col.monitor_failures if findings.match(PID, mf["key"], known) is None]
+    print(f"re-ran {len(cases)} recorded case(s) on the real code and the model: "
+          f"{len(col.disagreements)} disagreement(s), {len(mfs)} monitor failure(s) outside the known findings")
+    for d in col.disagreements[:5]:
+        print("model != code:", d["note"])
+        print("  model:", str(d["model"])[:300])
+        print("  code: ", str(d["impl"])[:300])
+    for mf in mfs[:5]:
+        print("monitor failure:", mf["what"], "key:", mf["key"])
+    return ok and not col.disagreements and not mfs
